@@ -64,6 +64,6 @@ def h_pair(ctx):
 def specs(tier, seed, concrete=False):
     from . import c04
     report = [x for x in c04.specs(tier, seed, concrete) if x.name == "report"]
-    rows, info = P.rows(2 if tier == "quick" else 3, seed, groups=False, candidates=30 if tier == "quick" else 10)
+    rows, info = ([], {}) if concrete else P.rows(2 if tier == "quick" else 3, seed, groups=False, candidates=30 if tier == "quick" else 10)
     return [Spec("pair", h_pair, rows, goals=["true", "false", "skipped"], max_paths=6000,
                  describe=f"Ace.shadow_of exactness + skip semantics on group-free pairs, covering array {info} + twins")] + report
